@@ -7,8 +7,8 @@ import (
 
 func init() {
 	register(&Rule{
-		Name: "KINDINV",
-		Doc: "protobuf kinds that p2j emits as a JSON number / string are accepted from that JSON token kind by j2p: the set of case labels of p2j.unmarshalSingular whose clause calls a number encoder (json.EncodeInt64/EncodeFloat64, strconv.Append*) is a subset of the labels of j2p.OnInt64 ∪ OnFloat64, and the string/bytes labels a subset of j2p.OnString — otherwise the converters are not mutually inverse on that kind",
+		Name:    "KINDINV",
+		Doc:     "protobuf kinds that p2j emits as a JSON number / string are accepted from that JSON token kind by j2p: the set of case labels of p2j.unmarshalSingular whose clause calls a number encoder (json.EncodeInt64/EncodeFloat64, strconv.Append*) is a subset of the labels of j2p.OnInt64 ∪ OnFloat64, and the string/bytes labels a subset of j2p.OnString — otherwise the converters are not mutually inverse on that kind",
 		Configs: "NP",
 		Floor:   map[string]int{"N": 12, "P": 12},
 		Run:     runKindInv,
